@@ -53,6 +53,17 @@ pub fn admits(ty: &LuaType, rt: &str) -> Admit {
     }
 }
 
+/// the static type *definitely* contains a value of Lua type `rt` with the given truthiness
+/// (wildcards do not count; `true` does not contain `false`)
+pub fn admits_strict(ty: &LuaType, rt: u8, truthy: bool) -> bool {
+    match ty {
+        LuaType::BooleanConst(b) | LuaType::DocBooleanConst(b) => rt == 1 && *b == truthy,
+        LuaType::Union(u) => u.into_vec().iter().any(|m| admits_strict(m, rt, truthy)),
+        LuaType::MultiLineUnion(u) => u.get_unions().iter().any(|(m, _)| admits_strict(m, rt, truthy)),
+        _ => admits(ty, ff::TYPE_NAMES[rt as usize]) == Admit::Yes,
+    }
+}
+
 fn fold(it: impl Iterator<Item = Admit>) -> Admit {
     let mut out = Admit::No;
     for a in it {
@@ -133,8 +144,8 @@ pub fn analyse(ws: &mut VirtualWorkspace, text: &str) -> Result<(HashMap<u32, In
 #[derive(Clone, Debug, Default)]
 pub struct Observed {
     pub var: u8,
-    /// runtime type index → one provenance seen with it
-    pub types: BTreeMap<u8, ff::Origin>,
+    /// (runtime type index, truthiness) → one provenance seen with it
+    pub types: BTreeMap<(u8, bool), ff::Origin>,
 }
 
 pub struct Execution {
@@ -195,7 +206,7 @@ pub fn execute(prog: &Prog, vm: &mut Vm, obs: &mut Obs) -> Result<Execution, Str
         for e in &mine.events {
             let o = observed.entry(e.id).or_default();
             o.var = e.var;
-            o.types.entry(e.val.ty).or_insert(e.val.origin);
+            o.types.entry((e.val.ty, e.val.truthy)).or_insert(e.val.origin);
         }
     }
     Ok(Execution { norm, text: r.text, ids: r.probe_ids, site_lines: r.site_lines, n_probes: r.n_probes, observed, loop_stats, site_types, runs, diverged_runs })
@@ -211,6 +222,10 @@ pub struct Mismatch {
     pub origin: ff::Origin,
     /// the value was copied by `x = y` from a variable whose static type is a union
     pub from_union_var: bool,
+    /// not a violation: the Lua type is admitted, but not *definitely* (wildcard variant) or not at the
+    /// literal level (`true` vs a runtime `false`).  Only recorded for values assigned in loop bodies;
+    /// C41 uses it to recognise consequences of a lost loop-body assignment.
+    pub soft: bool,
 }
 
 pub struct Judged {
@@ -235,13 +250,25 @@ pub fn judge(ws: &mut VirtualWorkspace, ex: &Execution, obs: &mut Obs) -> Result
                 continue;
             }
         };
-        for (rt, origin) in &o.types {
+        for ((rt, truthy), origin) in &o.types {
+            let mk = |soft: bool, ws: &VirtualWorkspace| {
+                let from_union_var = origin.copied && ex.site_lines.get(&origin.site).map(|l| union_rhs_lines.contains(l)).unwrap_or(false);
+                Mismatch { id: *id, var: o.var, inferred: show_type(ws, ty), is_never: ty.is_never(), rt: *rt, origin: *origin, from_union_var, soft }
+            };
             match admits(ty, ff::TYPE_NAMES[*rt as usize]) {
-                Admit::Yes => {}
-                Admit::Wild => j.wild += 1,
                 Admit::No => {
-                    let from_union_var = origin.copied && ex.site_lines.get(&origin.site).map(|l| union_rhs_lines.contains(l)).unwrap_or(false);
-                    j.mismatches.push(Mismatch { id: *id, var: o.var, inferred: show_type(ws, ty), is_never: ty.is_never(), rt: *rt, origin: *origin, from_union_var })
+                    // one hard mismatch per (probe, Lua type)
+                    if !j.mismatches.iter().any(|m| !m.soft && m.id == *id && m.rt == *rt) {
+                        j.mismatches.push(mk(false, ws));
+                    }
+                }
+                a => {
+                    if a == Admit::Wild {
+                        j.wild += 1;
+                    }
+                    if origin.in_loop.is_some() && !admits_strict(ty, *rt, *truthy) {
+                        j.mismatches.push(mk(true, ws));
+                    }
                 }
             }
         }
@@ -365,7 +392,8 @@ impl Property for C15 {
             }
         }
         // report a mismatch of the broad, known root-cause class only when there is no other one
-        let pick = j.mismatches.iter().find(|m| !copied_from_union(&ex, m)).or(j.mismatches.first());
+        let hard: Vec<&Mismatch> = j.mismatches.iter().filter(|m| !m.soft).collect();
+        let pick = hard.iter().find(|m| !copied_from_union(&ex, m)).or(hard.first()).copied();
         if let Some(m) = pick {
             let ctx = &ctxs[&m.id];
             let sig = c15_sig(&ex, m, ctx);
@@ -377,7 +405,7 @@ impl Property for C15 {
                     ff::VAR_NAMES[m.var as usize],
                     m.inferred,
                     ff::TYPE_NAMES[m.rt as usize],
-                    j.mismatches.len(),
+                    hard.len(),
                     c.std,
                     ex.text
                 ),
